@@ -21,6 +21,7 @@ import (
 	"time"
 
 	"github.com/tjfoc/gmsm/gmtls"
+	"verifharness/internal/hx"
 	"github.com/tjfoc/gmsm/sm2"
 	"github.com/tjfoc/gmsm/x509"
 )
@@ -219,6 +220,7 @@ func isTimeout(err error) bool {
 }
 
 func connect(serverCfg, clientCfg *gmtls.Config, kl *keyLog, payload []byte, deadline time.Duration) (r connRes) {
+	deadline = hx.D(deadline) // 10x (at least 60 s) when the case is re-run alone
 	ln, err := net.Listen("tcp", "127.0.0.1:0")
 	must(err)
 	defer ln.Close()
@@ -237,6 +239,7 @@ func connect(serverCfg, clientCfg *gmtls.Config, kl *keyLog, payload []byte, dea
 		raw, e := ln.Accept()
 		if e != nil {
 			s.err = "accept: " + e.Error()
+			s.timeout = isTimeout(e)
 			return
 		}
 		defer raw.Close()
